@@ -34,9 +34,10 @@ const (
 	KForTuple // [for K, V in Coll : Val if Cond]
 	KForObject
 	KTemplate // quoted or heredoc template with Parts
+	KRaw      // verbatim expression text in Str (rendered in parentheses)
 )
 
-var kindNames = map[Kind]string{KNum: "num", KBool: "bool", KNull: "null", KStr: "str", KVar: "var", KAttr: "attr", KIndex: "index", KLegacy: "legacyindex", KSplat: "splat", KTuple: "tuple", KObject: "object", KUnary: "unary", KBinary: "binary", KCond: "cond", KParen: "paren", KCall: "call", KForTuple: "fortuple", KForObject: "forobject", KTemplate: "template"}
+var kindNames = map[Kind]string{KNum: "num", KBool: "bool", KNull: "null", KStr: "str", KVar: "var", KAttr: "attr", KIndex: "index", KLegacy: "legacyindex", KSplat: "splat", KTuple: "tuple", KObject: "object", KUnary: "unary", KBinary: "binary", KCond: "cond", KParen: "paren", KCall: "call", KForTuple: "fortuple", KForObject: "forobject", KTemplate: "template", KRaw: "raw"}
 
 func (k Kind) String() string { return kindNames[k] }
 
